@@ -31,6 +31,7 @@ type transSpec struct {
 	lean string // Lean definition name
 	mode string // "func": whole body; "breaks": disjunction of the conditions that lead to `break` inside the function's for-loop;
 	//             "ifcond:<needle>": the condition of the first `if` whose body source contains <needle>;
+	//             "effect:<lvalue>": the net effect of the straight-line body on <lvalue> (a counter), as a term over its old value;
 	//             "firstif": the condition of the first `if` of the body (after applying preceding x++ statements)
 }
 
@@ -64,6 +65,11 @@ var transSpecs = []transSpec{
 	{"timecache/timeCacheCore.go", "timeCacheCore", "sweep", "sweepExpired", "ifcond:delete("},
 	{"sharded/shardIDProvider.go", "shardIDProvider", "ComputeId", "shardFallsBackToLowMask", "ifcond:shardIndex = addr & sp.maskLow"},
 	{"sharded/shardIDProvider.go", "shardIDProvider", "ComputeId", "shardKeepsWholeKey", "ifcond:startingIndex = len(key) - sp.bytesNeeded"},
+	{"lrucache/capacity/capacityLRUCache.go", "capacityLRU", "addNew", "lruBytesAfterAdd", "effect:c.currentCapacityInBytes"},
+	{"lrucache/capacity/capacityLRUCache.go", "capacityLRU", "removeElement", "lruBytesAfterRemove", "effect:c.currentCapacityInBytes"},
+	{"lrucache/capacity/capacityLRUCache.go", "capacityLRU", "adjustSize", "lruBytesAfterResize", "effect:c.currentCapacityInBytes"},
+	{"immunitycache/chunk.go", "immunityChunk", "trackNumBytesOnAddNoLock", "chunkBytesAfterAdd", "effect:chunk.numBytes"},
+	{"immunitycache/chunk.go", "immunityChunk", "trackNumBytesOnRemoveNoLock", "chunkBytesAfterRemove", "effect:chunk.numBytes"},
 	{"leveldb/leveldb.go", "DB", "updateBatchWithIncrement", "dbNoFlushNeeded", "firstif"},
 	{"leveldb/leveldbSerial.go", "SerialDB", "updateBatchWithIncrement", "serialNoFlushNeeded", "firstif"},
 }
@@ -84,6 +90,7 @@ type translator struct {
 	ltype  map[string]string // local name → type ("Int","Bool","") and
 	alias  map[string]*leaf  // local that is a bare alias of a leaf (type flows back)
 	bumped map[string]int    // leaf text → +n from x++ statements
+	env    map[string]string // mode effect: lvalue text → its current value as a Lean term (after the assignments seen so far)
 	nlocal int
 	// mode loopstep: the distinct ways one iteration of the loop ends other than going on with the next element
 	// (`return …` / `break` statements by source text, in order of first occurrence); outcome code = index + 1, 0 = next element
@@ -117,6 +124,12 @@ var nonIdent = regexp.MustCompile(`[^A-Za-z0-9]+`)
 
 func (t *translator) leafOf(n ast.Node, want string) string {
 	s := t.src(n)
+	if v, ok := t.env[s]; ok {
+		if v == "" {
+			t.fail("`%s` is read after an assignment that could not be translated", s)
+		}
+		return v
+	}
 	l, ok := t.byText[s]
 	if !ok {
 		name := strings.Trim(nonIdent.ReplaceAllString(s, "_"), "_")
@@ -691,6 +704,94 @@ func translateOne(repo string, sp transSpec) (def string, err string) {
 		}
 		lets = append(lets, &ast.ReturnStmt{Results: []ast.Expr{found.Cond}})
 		body = t.stmts(lets, "", "Bool")
+	case strings.HasPrefix(sp.mode, "effect:"):
+		// the NET EFFECT of the straight-line path of the body on one lvalue (a counter): the statements are walked in order,
+		// `x = e`, `x += e`, `x -= e` update the current value of x (for the target and for any selector lvalue such as `v.size`);
+		// `:=` definitions, index assignments and calls on OTHER objects are data flow and are skipped (their names stay
+		// parameters); early-return guards (`if … { return }`) are not taken; a call of a method of the receiver itself, a loop
+		// or any other branching is refused (ABSENT), because it could change the target behind the translator's back
+		target := strings.TrimPrefix(sp.mode, "effect:")
+		recv := ""
+		if fd.Recv != nil && len(fd.Recv.List) == 1 && len(fd.Recv.List[0].Names) == 1 {
+			recv = fd.Recv.List[0].Names[0].Name
+		}
+		t.env = map[string]string{}
+		for _, st := range fd.Body.List {
+			switch x := st.(type) {
+			case *ast.AssignStmt:
+				if len(x.Lhs) != 1 || len(x.Rhs) != 1 {
+					return "", "assignment " + t.src(x)
+				}
+				l := t.src(x.Lhs[0])
+				_, isSel := x.Lhs[0].(*ast.SelectorExpr)
+				if x.Tok == token.DEFINE || !isSel {
+					continue
+				}
+				if l != target && x.Tok == token.ASSIGN {
+					if _, bare := x.Rhs[0].(*ast.Ident); bare && t.locals[t.src(x.Rhs[0])] == "" {
+						// `element.Value = v`: a pointer/struct is stored — data flow; the lvalue is unknown from here on
+						if _, isParam := t.byText[t.src(x.Rhs[0])]; !isParam {
+							t.env[l] = ""
+							continue
+						}
+					}
+					nl, nb := len(t.leaves), copyLeafMap(t.byText)
+					if e, _, ok := t.tryExpr(x.Rhs[0]); ok {
+						t.env[l] = e
+					} else {
+						t.leaves, t.byText = t.leaves[:nl], nb
+						t.env[l] = ""
+					}
+					continue
+				}
+				r, _ := t.expr(x.Rhs[0], "Int")
+				switch x.Tok {
+				case token.ASSIGN:
+					t.env[l] = r
+				case token.ADD_ASSIGN, token.SUB_ASSIGN:
+					cur, _ := t.expr(x.Lhs[0], "Int")
+					op := "+"
+					if x.Tok == token.SUB_ASSIGN {
+						op = "-"
+					}
+					t.env[l] = "(" + cur + " " + op + " " + r + ")"
+				default:
+					return "", "assignment " + t.src(x)
+				}
+			case *ast.ExprStmt:
+				if isLogging(x, t) {
+					continue
+				}
+				call, ok := x.X.(*ast.CallExpr)
+				if !ok {
+					return "", "statement " + t.src(x)
+				}
+				if sel, ok := call.Fun.(*ast.SelectorExpr); ok {
+					if id, ok := sel.X.(*ast.Ident); ok && id.Name == recv {
+						return "", "calls a method of the receiver: " + t.src(x)
+					}
+				}
+			case *ast.IfStmt:
+				onlyReturn := x.Init == nil && x.Else == nil && len(x.Body.List) == 1
+				if onlyReturn {
+					rs, ok := x.Body.List[0].(*ast.ReturnStmt)
+					onlyReturn = ok && len(rs.Results) == 0
+				}
+				if !onlyReturn && !onlyLogging(x.Body, t) {
+					return "", "branching: if " + t.src(x.Cond)
+				}
+			case *ast.ReturnStmt:
+			default:
+				return "", "statement " + t.src(st)
+			}
+		}
+		v, ok := t.env[target]
+		if !ok || v == "" {
+			return "", "no translatable assignment to " + target
+		}
+		t.env = nil
+		ret = "Int"
+		body = v
 	case sp.mode == "verify":
 		body = t.stmts(fd.Body.List, "", "Accepted")
 		ret = "Bool"
